@@ -3308,7 +3308,7 @@ theorem replace_applies_direct (S : Schema) (hdet : detB S = true) (hfill : S.fi
     `place_nodes` takes a prefix only; for those `insertInline_total_valid_partial` keeps its refusal branch. -/
 theorem insertInline_never_raises_direct_partial (S : Schema) (hdet : detB S = true) (hfill : S.fillersOKB = true)
     (hwrap : S.wrapOKB = true) (hlab : S.labelsOKB = true) (hleaf : PM.FromDom.leafOkB S = true)
-    (hts : textStableC S = true) (hcl : S.closableB = true) (hst : PM.FromDom.textStableB S = true)
+    (hts : textStableC S = true) (hcl : S.closableB = true)
     (hta : textAbsorbB S = true) (hjc : joinCompatB S = true) (hro : reopenOKB S = true)
     (hiu : inlineUniformB S = true) (doc : Node) (f t : Nat) (sl : Slice)
     (hsl : sl.inlineLeaves S = true) (hslv : sl.closedValid S = true) (hsn : fnorm sl.content = true)
@@ -3327,7 +3327,7 @@ theorem insertInline_never_raises_direct_partial (S : Schema) (hdet : detB S = t
     obtain ⟨doc', ha⟩ := replace_applies_direct S hdet hfill hleaf hcl hts hta hjc hro hiu doc f t sl hv hdoc hn hattrs hhc
       hft hpf hpt hdir hslv hsn hshc st hr
     exact .inr ⟨st, doc', hr, ha,
-      insertInline_valid S hdet hfill hwrap hlab hleaf hts hcl hst doc doc' f t sl hsl hslv hsn hv hn hattrs hft st hr ha⟩
+      insertInline_valid S hdet hfill hwrap hlab hleaf hts hcl doc doc' f t sl hsl hslv hsn hv hattrs hft st hr ha⟩
 
 /-- the hypotheses of `replace_applies_direct` are satisfiable on runs that reach the Fitter, with both answers: typing
     `"x"` over `[2, 6)` in `doc(p("ab"), p("cd"))` is no trivial fit and ends in a replace step; over `[3, 8)` in
